@@ -329,6 +329,56 @@ func c10Descs() []desc {
 			in := oi[ix[3]]
 			return fmt.Sprintf("%s, %s, %s, lens(%d,%d,%d,%d,%d)", sh(s), sh(code), sd, len(in.Counter), len(in.Challenge), len(in.Password), len(in.SessionInfo), len(in.Timestamp)), func() { otp.ValidateOCRA(s, code, su, in) }
 		}},
+		{"length sweep: every text length 0..1100 in three contents", "DecodeSecret", []int{14, 1101, 3}, func(ix []int) (string, func()) {
+			if ix[1] > 300 && ix[1]%8 == 0 && ix[1]%7 != 0 && ix[0] > 1 {
+				return "", nil // beyond 300 the whole-block lengths are thinned out for the slower operations
+			}
+			// scratch buffers, padding arithmetic and block loops have their boundaries at lengths nobody lists by hand
+			text := strings.Repeat([]string{"A", "7", "="}[ix[2]], ix[1])
+			if ix[2] == 2 && ix[1] > 0 {
+				text = strings.Repeat("A", ix[1]-ix[1]%8%7) + strings.Repeat("=", ix[1]%8%7) // valid letters followed by up to 6 '='
+			}
+			op := []string{"DecodeSecret", "GenerateHOTP(secret)", "ValidateTOTP(secret)", "GenerateOCRA(secret)", "ValidateHOTP(code)", "NewRawSuite", "ParseOTPAuthURL(secret)", "ParseDecimalChallengeRFC6287", "ParseDecimalToBigEndian8", "ParseHexTimestamp", "LeftPadHex(s)", "LeftPadHex(width)", "HexInputToOCRA", "DigitsFromStr/AlgorithmFromStr"}[ix[0]]
+			return fmt.Sprintf("%s with %d x %q", op, ix[1], []string{"A", "7", "A..="}[ix[2]]), func() {
+				switch ix[0] {
+				case 0:
+					otp.DecodeSecret(text)
+				case 1:
+					otp.GenerateHOTP(text, 1, nil)
+				case 2:
+					otp.ValidateTOTP(text, "123456", time.Unix(59, 0), nil)
+				case 3:
+					su, _ := otp.NewRawSuite("OCRA-1:HOTP-SHA1-6:QN08")
+					otp.GenerateOCRA(text, su, otp.OCRAInput{Challenge: mkLen(8, 1)})
+				case 4:
+					otp.ValidateHOTP(aSecrets[2], text, 1, &otp.Param{Digits: otp.Digits(ix[1] % 256), Skew: 1})
+				case 5:
+					otp.NewRawSuite("OCRA-1:HOTP-SHA1-6:QN08-S" + text)
+					otp.NewRawSuite(text)
+				case 6:
+					if u, err := url.Parse("otpauth://totp/I:a?secret=" + text + "&issuer=" + text); err == nil {
+						otp.ParseOTPAuthURL(u)
+					}
+				case 7:
+					otp.ParseDecimalChallengeRFC6287(text)
+				case 8:
+					otp.ParseDecimalToBigEndian8(text)
+					otp.ParseDecimal64BigEndian(text)
+				case 9:
+					otp.ParseHexTimestamp(text)
+				case 10:
+					otp.LeftPadHex(text, 16)
+					otp.LeftPadHex(text, ix[1]+3)
+				case 11:
+					otp.LeftPadHex([]string{"", "a", "abc"}[ix[2]], ix[1])
+				case 12:
+					otp.HexInputToOCRA(text, text, text, text, text)
+				case 13:
+					otp.DigitsFromStr(text)
+					otp.AlgorithmFromStr(text)
+				}
+			}
+		}},
 		{"volume: many DISTINCT values of one argument in one process", "NewRawSuite", []int{6}, func(ix []int) (string, func()) {
 			// anything that remembers arguments (a memo, a ring, an index) meets more distinct values here than it has
 			// room for: 600 distinct accepted suite strings, secrets, URLs, questions ... each family in one call
@@ -655,8 +705,8 @@ func c10(r *ev.Run) {
 		for _, d := range descs {
 			n := d.count()
 			st := stride
-			if n < 20000 {
-				st = 1
+			if n < 20000 || strings.HasPrefix(d.name, "length sweep") {
+				st = 1 // sweeps over every length are always complete
 			}
 			perOpFails := 0
 			for i := shard * st; i < n; i += shards * st {
